@@ -53,3 +53,25 @@ def log_inconclusive(run, results, n=3):
     for r in bad[:n]:
         run.log("inconclusive case: %s" % str(r.get("detail"))[:300])
     return len(bad)
+
+
+def validate_traces(run, exe_result_trace_path, label, corrupt=False):
+    """Let TLC validate the recorded traces (inputs + receiver events of every replayed behaviour) against
+    the receiver of spec/ScRecv (ScRecvTrace).  Returns (ok, number of traces)."""
+    import os
+    if not os.path.exists(exe_result_trace_path):
+        return None, 0
+    lines = [l for l in open(exe_result_trace_path).read().splitlines() if l.strip()]
+    n = sum(1 for l in lines if '"ev":"reset"' in l)
+    if n == 0:
+        return None, 0
+    if corrupt:
+        # binding self-test: flip the verdict of one recorded Receive return
+        for i, l in enumerate(lines):
+            if '"ev":"ret"' in l and '"err":false' in l:
+                lines[i] = l.replace('"err":false', '"err":true')
+                break
+    lines.append(json.dumps({"ev": "reset", "mode": "None", "reqs": []}))
+    tr = run.tlc("ScRecv", "ScRecvTrace", "ScRecvTrace.cfg", mode="trace", files={"trace.ndjson": "\n".join(lines) + "\n"},
+                 deque=True, count=False, label=label, timeout=1200)
+    return tr.ok, n
